@@ -221,8 +221,12 @@ def check_direct(ctx: Ctx, metrics, ech, calc):
     name = m.attrs["_name_"]
     holder = {}
 
+    # the object the method is called on is one its own constructor built (built for the one metric the call asks for):
+    # whatever attributes the constructor sets are there, under whatever name
+    proto = next((o_ for out_, o_, _p, _r, _it in run_constructor(ctx, metrics, ech, [m], 1, {}) if out_.kind != "raise"), None)
+
     def make(prefix):
-        o = Obj(rcls, {"_edge_case_handler": ech, "_global_metrics": [m]})
+        o = Obj(rcls, dict(proto.attrs)) if proto is not None else Obj(rcls, {"_edge_case_handler": ech, "_global_metrics": [m]})
         pred, ref = AArr("PRED", fresh=False), AArr("REF", fresh=False)
         args = {}
         for p in calc.call_params:
